@@ -211,3 +211,169 @@ func TestVerifC15ReloadInflight(t *testing.T) {
 	}
 	c15FlushKinds(m, kinds)
 }
+
+// ---- two watch streams of one key out of step -------------------------------
+//
+// Every subscriber attached to a key gets its own watch stream until a reload
+// collapses them; each stream tells every listener of the key. Gated schedule:
+// stream X has taken "put k" and is parked in subscriber 0's change listener
+// (subscriber 1 has not been told yet); stream Y delivers "put k, del k" (k is
+// gone); X continues and tells subscriber 1 about k; then the connection is lost
+// before X delivers "del k", and the reload follows. At quiescence nobody may
+// list k's value.
+
+func (w *c15World) mutexParked() bool {
+	for _, g := range c15Goroutines() {
+		if strings.Contains(g.text, c15Pkg) && (g.state == "sync.Mutex.Lock" || g.state == "semacquire" || g.state == "sync.RWMutex.Lock" || g.state == "sync.RWMutex.RLock") {
+			return true
+		}
+	}
+	return false
+}
+
+func (w *c15World) twoStreams(k int, val string, viaReload bool) {
+	if len(w.live) != 2 || len(w.subs) != 2 || w.pending() != 0 {
+		w.inconclusive("two-stream scenario not set up (live=%d subs=%d pending=%d)", len(w.live), len(w.subs), w.pending())
+		return
+	}
+	x, y := w.live[0], w.live[1]
+	s0, s1 := w.subs[0], w.subs[1]
+	w.put(0, k, val)
+	w.del(0, k)
+	evs := w.etcd.events(w.delivered, w.delivered+2)
+	w.ops = append(w.ops, c15Op{Op: "streamX:put-parked-in-listener-of-sub0", K: k})
+	g := &c15Gate{entered: make(chan struct{}), release: make(chan struct{})}
+	s0.mu.Lock()
+	g.at = s0.calls + 1
+	s0.gate = g
+	s0.mu.Unlock()
+	s1.mu.Lock()
+	want1 := s1.calls + 2
+	s1.mu.Unlock()
+	if ok, _ := c15Send(x, c15Response(evs[:1], 0)); !ok {
+		close(g.release)
+		w.inconclusive("stream X did not take the put")
+		return
+	}
+	select {
+	case <-g.entered:
+	case <-time.After(c15Watchdog):
+		close(g.release)
+		w.inconclusive("listener gate of subscriber 0 not reached")
+		return
+	}
+	w.ops = append(w.ops, c15Op{Op: "streamY:put+del-processed", K: k})
+	sentY := make(chan bool, 1)
+	go func() {
+		ok, _ := c15Send(y, c15Response(evs, 0))
+		sentY <- ok
+	}()
+	// Y has told subscriber 1 both events, or is parked on a lock X holds
+	processed := vk.WaitUntil(c15Watchdog, func() bool {
+		s1.mu.Lock()
+		n := s1.calls
+		s1.mu.Unlock()
+		return n >= want1 || w.mutexParked()
+	})
+	close(g.release)
+	if !processed {
+		w.inconclusive("stream Y neither processed its events nor parked on a lock")
+		return
+	}
+	select {
+	case ok := <-sentY:
+		if !ok {
+			w.inconclusive("stream Y did not take its response")
+			return
+		}
+	case <-time.After(c15Watchdog):
+		w.inconclusive("stream Y did not take its response")
+		return
+	}
+	y.cursor = w.delivered + 2
+	x.cursor = w.delivered + 1
+	if !w.quiesce() {
+		return
+	}
+	w.nDelivered += 3
+	w.m.Count("two_stream_gated_interleavings", 1)
+	if viaReload {
+		// connection lost before X delivers "del k": the event is missed, the reload
+		// snapshot (without k) is all the registry gets
+		for _, ev := range evs {
+			w.applyDelivered(ev)
+		}
+		w.delivered += 2
+		w.ops = append(w.ops, c15Op{Op: "streamX:del-missed"})
+		nb := w.etcd.watchCount()
+		expected := internal.C15ListenedKeys(w.eps)
+		internal.C15Reload(w.eps, w.etcd)
+		w.afterReload(nb, expected, "after-reload-two-streams")
+		return
+	}
+	// no loss: X delivers its "del k" as well
+	if ok, _ := c15Send(x, c15Response(evs[1:], 0)); !ok {
+		w.inconclusive("stream X did not take the delete")
+		return
+	}
+	x.cursor = w.delivered + 2
+	w.nDelivered++
+	if !w.quiesce() {
+		return
+	}
+	for _, ev := range evs {
+		w.applyDelivered(ev)
+	}
+	w.delivered += 2
+	w.check("after-watch-events-two-streams")
+}
+
+func TestVerifC15TwoStreams(t *testing.T) {
+	logx.Disable()
+	m := vk.New(t, "C15", "two watch streams of one key out of step (gated): X parked after 'put k' reached subscriber 0 only, Y processes 'put k, del k', X resumes; then either X's 'del k' is missed and a reload follows, or X delivers it; "+c15Rule)
+	defer m.Done()
+	defer c15Wall(m, time.Now())
+	kinds := map[string]int64{}
+	n := vk.N(60, 1500)
+	for idx := 1; idx <= n; idx++ {
+		if !m.Only(idx) {
+			continue
+		}
+		r := m.Rand("twostreams", idx)
+		w := newC15World(m, idx, r, []string{"c15.two"})
+		if w.incon {
+			return
+		}
+		g := newC15Gen(w, r, false)
+		for i := r.Intn(3); i > 0; i-- {
+			g.putOrDel(true)
+		}
+		w.exec(c15Op{Op: "sub"})
+		w.exec(c15Op{Op: "sub", X: idx%4 == 0})
+		for i := r.Intn(3); i > 0 && !w.stopped(); i-- {
+			g.putOrDel(r.Intn(3) > 0)
+			w.exec(c15Op{Op: "pump", M: 1})
+		}
+		if !w.stopped() {
+			// a key that is absent now; its value may be shared with live keys or not
+			k := 20 + r.Intn(3)
+			val := g.pools[0][r.Intn(len(g.pools[0]))]
+			if r.Intn(2) == 0 {
+				val = "10.9.9.9:1"
+			}
+			w.twoStreams(k, val, idx%3 != 0)
+		}
+		for i := 0; i < 3 && !w.stopped(); i++ {
+			g.putOrDel(r.Intn(2) == 0)
+			w.exec(c15Op{Op: "pump", M: r.Intn(3)})
+		}
+		if !w.stopped() {
+			w.exec(c15Op{Op: "reload"})
+		}
+		if w.incon {
+			return
+		}
+		c15Finish(m, w, kinds, 13)
+	}
+	c15FlushKinds(m, kinds)
+}
